@@ -332,11 +332,12 @@ func (g *gen) switchStmt() string {
 			g.Tag("default-not-last")
 		}
 	}
-	init := ""
+	init, initVar := "", ""
 	if g.Chance(1, 4, "switch-init") {
 		g.Tag("switch-init")
 		name := g.Local("w")
 		init = fmt.Sprintf("%s := %s; ", name, g.IntExpr(1))
+		initVar = name
 		g.Declare(progen.Var{Name: name, Type: "int"})
 	}
 	var cases []string
@@ -355,6 +356,9 @@ func (g *gen) switchStmt() string {
 			for j := 0; j < n && pi < len(perm); j++ {
 				l = append(l, fmt.Sprint(perm[pi]))
 				pi++
+			}
+			if len(l) == 0 {
+				break // constants exhausted
 			}
 			cases = append(cases, "case "+strings.Join(l, ", ")+":")
 		}
@@ -395,6 +399,9 @@ func (g *gen) switchStmt() string {
 			} else {
 				b.WriteString(cases[ci] + "\n")
 				ci++
+			}
+			if i == 0 && initVar != "" {
+				b.WriteString("\t_ = " + initVar + "\n") // the header variable must be used
 			}
 			b.WriteString(g.caseBody(last, true))
 		}
